@@ -37,6 +37,12 @@ func guardStrings(b *binder, blk *ssa.BasicBlock) []string {
 				out = append(out, liftedGuards(b, call, ex.Index)...)
 			}
 		}
+		// ... and known false: what holds wherever it returns false
+		if ex, isEx := cond.(*ssa.Extract); isEx && !val {
+			if call, isCall := ex.Tuple.(*ssa.Call); isCall && !call.Call.IsInvoke() {
+				out = append(out, liftedGuardsFor(b, call, ex.Index, false)...)
+			}
+		}
 		if call, isCall := cond.(*ssa.Call); isCall && val && !call.Call.IsInvoke() {
 			out = append(out, liftedGuards(b, call, 0)...)
 		}
@@ -47,6 +53,11 @@ func guardStrings(b *binder, blk *ssa.BasicBlock) []string {
 // liftedGuards: the guards common to every `return ..., true` (result idx) of the statically called module helper, in
 // terms of the call's arguments.
 func liftedGuards(b *binder, call *ssa.Call, idx int) []string {
+	return liftedGuardsFor(b, call, idx, true)
+}
+
+// liftedGuardsFor: the guards common to every return of the helper whose result idx is the constant `want`.
+func liftedGuardsFor(b *binder, call *ssa.Call, idx int, want bool) []string {
 	cal := call.Call.StaticCallee()
 	if cal == nil || !b.c.P.isModuleFn(cal) || len(cal.Blocks) == 0 || b.inlineD >= 2 || len(cal.Params) != len(call.Call.Args) {
 		return nil
@@ -64,9 +75,9 @@ func liftedGuards(b *binder, call *ssa.Call, idx int) []string {
 		if !ok || idx >= len(ret.Results) {
 			continue
 		}
-		if bv, isC := constBool(ret.Results[idx]); !isC || !bv {
+		if bv, isC := constBool(ret.Results[idx]); !isC || bv != want {
 			if _, isConst := ret.Results[idx].(*ssa.Const); isConst {
-				continue // returns false here
+				continue // returns the other constant here
 			}
 			return nil // computed result: nothing to lift
 		}
@@ -433,19 +444,42 @@ func runNyctTrips(c *Ctx) {
 		for _, blk := range upd.Blocks {
 			for _, in := range blk.Instrs {
 				call, ok := in.(*ssa.Call)
-				if !ok || !setsVehicleDescriptor(call) {
+				if !ok {
 					continue
+				}
+				// the call that puts the descriptor on the entity -- made here, or by a helper of the package that is
+				// called here (the guard is then the one of the helper's call)
+				fnsWithStores := []*ssa.Function{upd}
+				inner := call
+				if !setsVehicleDescriptor(call) {
+					h := staticCallee(call)
+					if h == nil || !c.P.isModuleFn(h) || fnPkgPath(h) != fnPkgPath(upd) || len(h.Blocks) == 0 {
+						continue
+					}
+					inner = nil
+					for _, hb := range h.Blocks {
+						for _, hin := range hb.Instrs {
+							if hc, isCall := hin.(*ssa.Call); isCall && setsVehicleDescriptor(hc) && len(dominatingConds(hb)) == 0 {
+								inner = hc
+							}
+						}
+					}
+					if inner == nil {
+						continue
+					}
+					fnsWithStores = append(fnsWithStores, h)
 				}
 				n++
 				gs := guardStrings(b, blk)
 				okG := hasGuard(gs, "+", "proto:NyctTripDescriptor.IsAssigned")
-				desc := b.bind(call.Call.Args[1])
+				desc := b.bind(inner.Call.Args[1])
 				var idExpr string
-				for _, fs := range collectFieldStores([]*ssa.Function{upd}, "proto.VehicleDescriptor") {
+				for _, fs := range collectFieldStores(fnsWithStores, "proto.VehicleDescriptor") {
 					if fs.field == "Id" {
 						idExpr = b.bind(fs.store.Val)
 					}
 				}
+				call = inner
 				c.Check(okG && strings.Contains(idExpr, "proto:NyctTripDescriptor.TrainId"), "NYCT", fname, "assigned trips get a vehicle whose id is the train id", p.ipos(call), "setVehicleDescriptor under GetIsAssigned(), Id <- GetTrainId()", "the vehicle descriptor is set without the trip being assigned, or its id is not the train id ("+clip(idExpr, 60)+" / "+clip(desc, 40)+")")
 				// and the setter puts that very descriptor on the entity, unmodified
 				if setter := staticCallee(call); setter != nil && len(setter.Blocks) > 0 {
@@ -471,16 +505,85 @@ func runNyctTrips(c *Ctx) {
 			// membership in the station set: a table lookup or a predicate helper, whichever way it is written
 			var stations []string
 			okTable := false
-			for _, ce := range dominatingConds(fs.store.Block()) {
-				if ce.Composite {
-					continue
+			// every membership test the store is under -- directly, or inside a (value, ok) helper whose ok is tested
+			// here (the tests common to the helper's `return .., true` exits); the one about the station part counts
+			type memb struct {
+				set  []string
+				subj string
+			}
+			var membs []memb
+			var gather func(conds []condEdge, bb *binder, d int)
+			gather = func(conds []condEdge, bb *binder, d int) {
+				for _, ce := range conds {
+					if ce.Composite {
+						continue
+					}
+					cond, val := ce.Cond, ce.Val
+					if u, isNot := cond.(*ssa.UnOp); isNot && u.Op == token.NOT {
+						cond, val = u.X, !val
+					}
+					if set, subj, ok := c.membershipSet(cond); ok && val {
+						membs = append(membs, memb{set, bindSubject(bb, subj, cond)})
+					}
+					ex, isEx := cond.(*ssa.Extract)
+					if !isEx || !val || d > 1 {
+						continue
+					}
+					call, isCall := ex.Tuple.(*ssa.Call)
+					if !isCall || call.Call.IsInvoke() {
+						continue
+					}
+					h := call.Call.StaticCallee()
+					if h == nil || !c.P.isModuleFn(h) || len(h.Blocks) == 0 || len(h.Params) != len(call.Call.Args) {
+						continue
+					}
+					var args []string
+					for _, a := range call.Call.Args {
+						args = append(args, bb.bind(a))
+					}
+					sub := bb.withArgs(h, args)
+					first := true
+					var common []condEdge
+					for _, hb := range h.Blocks {
+						ret, isRet := hb.Instrs[len(hb.Instrs)-1].(*ssa.Return)
+						if !isRet || ex.Index >= len(ret.Results) {
+							continue
+						}
+						if k, isC := ret.Results[ex.Index].(*ssa.Const); isC {
+							if bv, _ := constBool(k); !bv {
+								continue
+							}
+						}
+						dc := dominatingConds(hb)
+						if first {
+							common, first = dc, false
+							continue
+						}
+						var keep []condEdge
+						for _, a := range common {
+							for _, b2 := range dc {
+								if a.Cond == b2.Cond && a.Val == b2.Val {
+									keep = append(keep, a)
+								}
+							}
+						}
+						common = keep
+					}
+					gather(common, sub, d+1)
 				}
-				if set, subj, ok := c.membershipSet(ce.Cond); ok && ce.Val {
+			}
+			gather(dominatingConds(fs.store.Block()), b, 0)
+			for _, m := range membs {
+				isStation := strings.Contains(m.subj, "slice(proto:TripUpdate_StopTimeUpdate.StopId")
+				if isStation || stations == nil {
 					stations = nil
-					for _, k := range set {
+					for _, k := range m.set {
 						stations = append(stations, strings.Trim(k, "\""))
 					}
-					okTable = strings.Contains(bindSubject(b, subj, ce.Cond), "slice(proto:TripUpdate_StopTimeUpdate.StopId")
+					okTable = isStation
+				}
+				if isStation {
+					break
 				}
 			}
 			c.Check(strings.Join(stations, ",") == strings.Join(wantStations, ","), "NYCT", fname, "affected stations are M11-M14, M16, M18", p.pos(fix.Pos()), strings.Join(stations, ","), "the station set is "+strings.Join(stations, ",")+", documented set is "+strings.Join(wantStations, ","))
@@ -595,11 +698,50 @@ func runNyctTrips(c *Ctx) {
 						okSkip = false
 					}
 				case *ssa.Call:
-					if staticCallee(x) != stale {
+					if h := staticCallee(x); h != stale && h != nil && c.P.isModuleFn(h) && len(h.Blocks) > 0 && h.Signature.Results().Len() == 1 && len(h.Params) == len(x.Call.Args) && d < 3 {
+						// the decision lives in a helper: each value it can return is `false` or the answer of the stale
+						// test asked under the same guards, read with the helper's parameters standing for the arguments
+						var args []string
+						for _, a := range x.Call.Args {
+							args = append(args, b.bind(a))
+						}
+						sub := b.withArgs(h, args)
+						feedPrm := -1
+						for k, a := range x.Call.Args {
+							if a == ssa.Value(updTrip.Params[2]) {
+								feedPrm = k
+							}
+						}
+						eachReturned(h, 0, func(rv ssa.Value, rat *ssa.BasicBlock, ret *ssa.Return) {
+							switch y := rv.(type) {
+							case *ssa.Const:
+								if bv, isB := constBool(y); !isB || bv {
+									okSkip = false
+								}
+							case *ssa.Call:
+								if staticCallee(y) != stale {
+									okSkip = false
+									return
+								}
+								nStale++
+								gs := guardStrings(sub, rat)
+								if !(hasGuard(gs, "+", "proto.HasExtension(", "E_NyctTripDescriptor") && hasGuard(gs, "+", "FilterStaleUnassignedTrips")) {
+									okSkip = false
+								}
+								a0, a1 := sub.bind(y.Call.Args[0]), sub.bind(y.Call.Args[1])
+								if !strings.Contains(a0, "updateTripOrVehicle(") || !strings.Contains(a1, "proto:TripUpdate.StopTimeUpdate") || feedPrm < 0 || y.Call.Args[2] != ssa.Value(h.Params[feedPrm]) {
+									okSkip = false
+								}
+							default:
+								okSkip = false
+							}
+						})
+					} else if h != stale {
 						okSkip = false
 						return
+					} else {
+						checkStaleCall(x, at)
 					}
-					checkStaleCall(x, at)
 					// the answer reaches the returned result on every path
 					stBlk, callBlk := fs.store.Block(), x.Block()
 					base := addrRoot(fs.store.Addr)
@@ -826,33 +968,91 @@ func runNyctAlerts(c *Ctx) {
 	sort.Strings(wantPrio)
 	fname := shortName(ua)
 	nSkip := 0
-	for _, blk := range ua.Blocks {
-		ret, isRet := blk.Instrs[len(blk.Instrs)-1].(*ssa.Return)
-		if !isRet {
-			continue
+	// the places where `true` (drop the alert) is answered: in UpdateAlert itself, or -- when UpdateAlert answers true
+	// because a predicate helper of the package did -- in that helper
+	type skipSite struct {
+		fn  *ssa.Function
+		blk *ssa.BasicBlock
+		bb  *binder
+	}
+	var sites []skipSite
+	var collect func(g *ssa.Function, bb *binder, d int)
+	collect = func(g *ssa.Function, bb *binder, d int) {
+		for _, blk := range g.Blocks {
+			ret, isRet := blk.Instrs[len(blk.Instrs)-1].(*ssa.Return)
+			if !isRet || len(ret.Results) != 1 {
+				continue
+			}
+			k, isC := ret.Results[0].(*ssa.Const)
+			if !isC {
+				continue
+			}
+			if bv, _ := constBool(k); !bv {
+				continue
+			}
+			gs := guardStrings(bb, blk)
+			if hasGuard(gs, "+", "updateElevatorAlert(") || hasGuardClass(bb, gs, "+", "(nyctalerts._,*string,*proto.Alert)→(bool)") {
+				continue // the elevator path
+			}
+			delegated := false
+			if d < 2 {
+				for _, ce := range dominatingConds(blk) {
+					cnd, val := ce.Cond, ce.Val
+					if u, isNot := cnd.(*ssa.UnOp); isNot && u.Op == token.NOT {
+						cnd, val = u.X, !val
+					}
+					hc, isCall := cnd.(*ssa.Call)
+					if !isCall || !val || ce.Composite {
+						continue
+					}
+					h := staticCallee(hc)
+					if h == nil || h == ue || !c.P.isModuleFn(h) || fnPkgPath(h) != fnPkgPath(ua) || len(h.Blocks) == 0 || h.Signature.Results().Len() != 1 || len(h.Params) != len(hc.Call.Args) {
+						continue
+					}
+					if bt, ok := h.Signature.Results().At(0).Type().Underlying().(*types.Basic); !ok || bt.Kind() != types.Bool {
+						continue
+					}
+					// a helper that decides about the alert (it is handed the alert), not a membership predicate on a
+					// priority -- that one is read as a set by the check below
+					takesAlert := false
+					for _, prm := range h.Params {
+						if shortType(prm.Type()) == "*proto.Alert" {
+							takesAlert = true
+						}
+					}
+					if !takesAlert {
+						continue
+					}
+					var args []string
+					for _, a := range hc.Call.Args {
+						args = append(args, bb.bind(a))
+					}
+					sub := bb.withArgs(h, args)
+					sub.showBodies = bb.showBodies
+					collect(h, sub, d+1)
+					delegated = true
+				}
+			}
+			if !delegated {
+				sites = append(sites, skipSite{g, blk, bb})
+			}
 		}
-		k, isC := ret.Results[0].(*ssa.Const)
-		if !isC {
-			continue
-		}
-		if bv, _ := constBool(k); !bv {
-			continue
-		}
-		gs := guardStrings(b, blk)
-		if hasGuard(gs, "+", "updateElevatorAlert(") || hasGuardClass(b, gs, "+", "(nyctalerts._,*string,*proto.Alert)→(bool)") {
-			continue // the elevator path
-		}
+	}
+	collect(ua, b, 0)
+	for _, site := range sites {
+		blk, sfn, sb := site.blk, site.fn, site.bb
+		gs := guardStrings(sb, blk)
 		nSkip++
 		// the decision is taken per informed entity: the return sits in a loop over all of the alert's informed entities
 		inEntityLoop := false
-		for _, l := range naturalLoops(ua) {
+		for _, l := range naturalLoops(sfn) {
 			// the return leaves the loop, so it is not one of the loop's blocks: it must hang off the loop body
 			if !(l.Blocks[blk] || (len(l.Header.Succs) > 0 && l.Blocks[l.Header.Succs[0]] && l.Header.Succs[0].Dominates(blk))) {
 				continue
 			}
 			for lb := range l.Blocks {
 				for _, in := range lb.Instrs {
-					if ia, isIA := in.(*ssa.IndexAddr); isIA && rangeIndexSeq(ia.Index) != nil && strings.Contains(b.bind(ia.X), "proto:Alert.InformedEntity") {
+					if ia, isIA := in.(*ssa.IndexAddr); isIA && rangeIndexSeq(ia.Index) != nil && strings.Contains(sb.bind(ia.X), "proto:Alert.InformedEntity") {
 						inEntityLoop = true
 					}
 				}
@@ -871,7 +1071,7 @@ func runNyctAlerts(c *Ctx) {
 			if set, subj, ok := c.membershipSet(ce.Cond); ok {
 				got = set
 				sort.Strings(got)
-				okSet = strings.Join(got, ",") == strings.Join(wantPrio, ",") && strings.Contains(b.bind(subj), "proto:Alert.InformedEntity")
+				okSet = strings.Join(got, ",") == strings.Join(wantPrio, ",") && strings.Contains(sb.bind(subj), "proto:Alert.InformedEntity")
 			}
 		}
 		c.Check(okOpt && okSet, "ALRT", fname, "alerts dropped exactly for timetabled no-service priorities with the option set", p.pos(blk.Instrs[0].Pos()), "return true dominated by opts.SkipTimetabledNoServiceAlerts and membership of the entity's priority in {no midday, no overnight, no weekend service}", fmt.Sprintf("an alert can be dropped without the option being set or for a priority outside the timetabled no-service set (set found: %v, expected %v)", got, wantPrio))
